@@ -182,6 +182,9 @@ func gather(w *World, p string) *checkRun {
 		}
 		fr := w.verifyLemma(l)
 		run.results = append(run.results, fr)
+		for _, t := range fr.Trusted {
+			run.trusted[t] = true
+		}
 		if fr.Outside != "" {
 			run.outside = append(run.outside, fr.Fn+": "+fr.Outside)
 		}
